@@ -249,7 +249,7 @@ pub fn canonical_candidates(m: &Msg) -> Result<Vec<(&'static str, Vec<u8>)>, Str
     let mut by_tuple = pairs.clone();
     by_tuple.sort();
     let mut by_concat = pairs.clone();
-    by_concat.sort_by(|a, b| format!("{}{}", a.0, a.1).cmp(&format!("{}{}", b.0, b.1)));
+    by_concat.sort_by(|a, b| format!("{}{}", a.0, a.1).cmp(&format!("{}{}", b.0, b.1)).then_with(|| a.cmp(b)));
     let mut out = Vec::new();
     let mut c1 = prefix.clone();
     c1.extend_from_slice(render(&by_tuple).as_bytes());
